@@ -26,14 +26,17 @@ META = {
     "note": "Trusted: TLC, the call/ret stamping (one SeqCst counter in shared memory, incremented immediately "
             "before the call and after the return), the rendering of static_config() by the driver. Concurrent "
             "histories are free-running (seeded yields), so rare interleavings are covered by the model, not "
-            "guaranteed on the real code. No crashes are injected here (C04/C07). open() racing with a creation or "
-            "a teardown may return ServiceInCorruptedState on the blackboard (documented variant, accepted only "
-            "with an overlapping create/drop; counted in the evidence).",
+            "guaranteed on the real code. No crashes are injected here (C04/C07). The blackboard open() that races "
+            "with a creation or the last user's drop returns ServiceInCorruptedState for a healthy service: a known "
+            "finding (known_findings.json); the trace specification steps over exactly this case (KnownDeviation) so "
+            "that the remaining blackboard histories are still validated, and the check reports it as a violation "
+            "with the narrow signature; occurrences are counted in the evidence.",
     "design_ref": "DESIGN.md 5 C06, 3.3, 3.4, 4",
     "replay": True,
 }
 
 PATS = ["ps", "ev", "rr", "bb"]
+KNOWN_BB_SIGNATURE = "trace:bb:open:ServiceInCorruptedState:overlapping-create-or-last-drop"
 ABS_INVS = ["AtMostOneCreator", "OpenSeesCreatorSettings", "NoHalfInitialised", "LifetimeFollowsUsers",
             "RecreatableAfterLast"]
 IMPL_INVS = ["Explainable"] + ABS_INVS + ["ImplAtMostOneCreator", "ImplNoHalfInitialised",
@@ -70,7 +73,9 @@ def drv(args, seed, timeout=1500):
     rc, so, se = vp.run_driver("drv-service", full, timeout=timeout, env={"VERIF_SEED": seed, "RUST_BACKTRACE": "0"},
                                ok_codes=None)
     if rc == 2:
-        raise vp.ToolError(f"driver usage error: {' '.join(map(str, full))}\n{se[-2000:]}")
+        raise vp.ToolError(f"driver reported a harness problem: {' '.join(map(str, full))}\n{se[-2000:]}")
+    if rc == 3 and "sched" in full[:1]:
+        return {"hung": vp.last_json_line(so)["hung_at"]}
     if rc != 0:
         raise DriverAbort(full, rc, se[-3000:])
     return vp.last_json_line(so)
@@ -388,12 +393,29 @@ def validate_trace(ctx, tag, trace, mode):
     out = [("tlc", (f"ServiceAbsTrace[{tag}]", v.res, False))]
     if v.accepted:
         out.append(("accepted", (len(runs), {run_hash(r) for r in runs}, sum(1 for e in recs if e.get("k") == "call"))))
+        # Histories that were only explainable with the KnownDeviation rule of ServiceAbs.tla (blackboard open
+        # -> ServiceInCorruptedState while a create or the last user's drop overlaps) are violations with
+        # the narrow signature of known_findings.json; anything else of that kind was rejected by TLC.
+        hits = [(r, i) for r in runs for i, e in enumerate(r)
+                if e.get("k") == "ret" and e.get("a") == "open" and e.get("r") == "ServiceInCorruptedState"]
+        if hits:
+            run, i = hits[0]
+            mode = run[0].get("mode", mode)
+            out.append(("violation", vp.Violation(
+                f"bb/{mode}: open() returned ServiceInCorruptedState for a healthy blackboard service that was being "
+                f"created or torn down by an overlapping call ({len(hits)} occurrence(s) in the {mode} histories)",
+                replay={"kind": "trace", "mode": mode, "pat": run[0].get("pat"), "first_unexplained": run[i],
+                        "position_in_run": i, "invariant": None, "occurrences": len(hits),
+                        "history_before": short_history(run[max(1, i - 30):i + 1]),
+                        "run": run[:i + 3] if len(run) < 3000 else run[max(0, i - 1500):i + 3], "reset": run[0]},
+                signature=KNOWN_BB_SIGNATURE)))
         return out, recs
     if v.pos:
         run, rel = vp.run_containing(recs, v.pos)
     else:
         run, rel = recs[:200], 0
     pat = run[0].get("pat", "?")
+    mode = run[0].get("mode", mode)
     first = v.record if isinstance(v.record, dict) else {}
     what = (f"{pat}/{mode}: recorded history is not explainable by the atomic service object: event #{rel} of the run "
             f"({first.get('k')} t{first.get('t')} {first.get('a')} -> {first.get('r')}"
@@ -425,11 +447,7 @@ def part_seq(ctx):
     with open(allt, "w") as f:
         for t in traces:
             f.write(open(t).read())
-    out, recs = validate_trace(ctx, "sequential, 4 patterns", allt, "seq")
-    out.append(("calls", ("seq", summaries)))
-    runs_ = vp.split_runs(recs)
-    out.append(("sample", {"mode": "seq", "pattern": runs_[1][0]["pat"], "history": short_history(runs_[1], 30)}))
-    return out
+    return [("trace", ("seq", "sequential, 4 patterns", allt)), ("calls", ("seq", summaries))]
 
 
 def part_conc(ctx, procs, slow=False):
@@ -468,13 +486,10 @@ def part_conc(ctx, procs, slow=False):
     with open(allt, "w") as f:
         for t, _ in done:
             f.write(open(t).read())
-    out, recs = validate_trace(ctx, f"{mode}, 4 patterns", allt, mode)
-    out.append(("calls", (mode, [s for _, s in done])))
+    out = [("trace", (mode, f"{mode}, 4 patterns", allt)), ("calls", (mode, [s for _, s in done]))]
     for _, s in done:
         if s.get("panics", 0):
             out.append(("note", f"{s['pat']}/{mode}: {s['panics']} worker(s) panicked or exited abnormally"))
-    runs_ = vp.split_runs(recs)
-    out.append(("sample", {"mode": mode, "pattern": runs_[0][0]["pat"], "history": short_history(runs_[0], 40)}))
     return out
 
 
@@ -492,28 +507,80 @@ def part_sched(ctx):
 
     def one(job):
         pat, sc = job
-        t = ctx.path("traces", f"sched-{pat}-{sc or 'all'}.ndjson")
-        args = ["sched", "--pat", pat, "--root", ctx.path("dom", "x")[:-2], "--out", t] + extra
-        if sc:
-            args += ["--scenario", sc]
-        return t, drv(args, ctx.seed, timeout=3000)
+        parts, total, resume = [], None, None
+        for attempt in range(60):
+            t = ctx.path("traces", f"sched-{pat}-{sc or 'all'}.{attempt}.ndjson")
+            args = ["sched", "--pat", pat, "--root", ctx.path("dom", "x")[:-2], "--out", t] + extra
+            if sc:
+                args += ["--scenario", sc]
+            if resume:
+                args += ["--resume", resume]
+            r = drv(args, ctx.seed, timeout=3000)
+            parts.append(t)
+            if "hung" not in r:
+                total = r
+                break
+            # a worker paused inside a critical section of a REAL process-global mutex of the code under
+            # test blocked its peer in the kernel: not schedulable by the harness, skip this schedule
+            resume = r["hung"]
+        if total is None:
+            raise vp.ToolError(f"scheduler enumeration for {pat}/{sc} stalled too often")
+        return parts, total, len(parts) - 1
 
     with cf.ThreadPoolExecutor(max_workers=4) as ex:
         done = list(ex.map(one, [(p, sc) for p in pats for sc in scen]))
     allt = ctx.path("traces", "sched-all.ndjson")
     with open(allt, "w") as f:
-        for t, _ in done:
-            f.write(open(t).read())
-    out, recs = validate_trace(ctx, f"scheduler, {'/'.join(pats)}", allt, "sched")
-    summs = []
-    for _, s in done:
+        for parts, _, _ in done:
+            for t in parts:
+                f.write(open(t).read())
+    out = [("trace", ("sched", f"scheduler, {'/'.join(pats)}", allt))]
+    summs, skipped = [], 0
+    for _, s, nskip in done:
+        skipped += nskip
         summs.append({"pat": s["pat"], "calls": s["calls"], "results": s["results"]})
-        if s["executions"] < 10:
+        if s["executions"] < 5:
             raise vp.ToolError(f"vacuous scheduler enumeration: {s}")
         if s["anomalies"]:
             out.append(("note", f"{s['pat']}/sched: {s['anomalies']} execution(s) panicked or did not complete"))
+    if skipped:
+        out.append(("note", f"sched: {skipped} schedule(s) skipped (a thread was paused inside a process-global mutex "
+                            "of the code under test and blocked its peer in the kernel)"))
     out.append(("calls", ("sched", summs)))
-    out.append(("schedules", sum(s["executions"] for _, s in done)))
+    out.append(("schedules", sum(s["executions"] for _, s, _ in done)))
+    return out
+
+
+def part_traces(ctx):
+    """Produces all recorded histories (drivers in parallel) and validates them: quick = ONE TLC run over the
+    concatenation (the `reset` records carry pattern and mode), thorough = one TLC run per mode."""
+    producers = [guarded(part_sched, "sched"), lambda c: guarded(part_conc, "slow")(c, True, True),
+                 guarded(part_seq, "seq"), lambda c: guarded(part_conc, "procs")(c, True),
+                 lambda c: guarded(part_conc, "conc")(c, False)]
+    with cf.ThreadPoolExecutor(max_workers=3 if ctx.quick else 5) as ex:
+        produced = [r for rs in ex.map(lambda p: p(ctx), producers) for r in rs]
+    out = [r for r in produced if r[0] != "trace"]
+    traces = [r[1] for r in produced if r[0] == "trace"]
+    if not traces:
+        return out
+    if ctx.quick:
+        allt = ctx.path("traces", "all.ndjson")
+        with open(allt, "w") as f:
+            for _, _, t in traces:
+                f.write(open(t).read())
+        jobs = [("all", "all modes, 4 patterns", allt)]
+    else:
+        jobs = traces
+    with cf.ThreadPoolExecutor(max_workers=5) as ex:
+        results = list(ex.map(lambda j: validate_trace(ctx, j[1], j[2], j[0]), jobs))
+    seen_modes = set()
+    for o, recs in results:
+        out.extend(o)
+        for run in vp.split_runs(recs):
+            m = run[0].get("mode")
+            if m not in seen_modes and len(run) > 6:
+                seen_modes.add(m)
+                out.append(("sample", {"mode": m, "pattern": run[0].get("pat"), "history": short_history(run, 30)}))
     return out
 
 
@@ -552,7 +619,7 @@ def run(ctx):
     ctx.assumptions += [
         "call/ret stamps from one SeqCst counter under-approximate the real-time order (sound for linearizability)",
         "transient documented errors (AlreadyExists/IsBeingCreatedByAnotherInstance for create, IsMarkedForDestruction/"
-        "HangsInCreation/ServiceInCorruptedState for open, the open_or_create variants, 'not listed' for "
+        "HangsInCreation for open, the open_or_create variants, 'not listed' for "
         "does_exist/list) are accepted only when a create/open_or_create/drop of another thread overlaps",
         "ServiceLifecycle: steps of builder/mod.rs and ServiceState::drop as read at the pinned revision, system "
         "calls atomic, time abstracted to a retry budget, no crashes",
@@ -565,11 +632,7 @@ def run(ctx):
 
     jobs = []
     with cf.ThreadPoolExecutor(max_workers=5 if quick else 6) as ex:
-        jobs.append(ex.submit(guarded(part_seq, "seq"), ctx))
-        jobs.append(ex.submit(guarded(part_conc, "conc"), ctx, False))
-        jobs.append(ex.submit(guarded(part_conc, "procs"), ctx, True))
-        jobs.append(ex.submit(guarded(part_conc, "slow"), ctx, True, True))
-        jobs.append(ex.submit(guarded(part_sched, "sched"), ctx))
+        jobs.append(ex.submit(part_traces, ctx))
         jobs.append(ex.submit(guarded(part_matrix, "matrix"), ctx, dflts))
         jobs.append(ex.submit(part_abs_model, ctx))
         if quick:
